@@ -26,6 +26,10 @@ func (g *Gen) customDecor() string {
 			*fs[i] = r.pick(glyphs)
 		}
 	}
+	if r.chance(1, 12) {
+		// a glyph that is not one cell wide: two characters, a full-width one, a zero-width one
+		*fs[r.n(3)] = r.pick([]string{"==", "－", "║║", "\u200b", "ab"})
+	}
 	return g.do("populate " + showDecor(d))
 }
 
@@ -245,6 +249,10 @@ func init() {
 		oracleDoc: "decode the real output with encoding/json's token reader (order-preserving): an array of one object per non-separator row; keys are header texts; values equal json.Marshal(item) (or of the text when that is {} and the text is non-empty); absent cells and empty skipable cells omitted; the listed header/skipable defects yield an error and Render returns no text",
 		run: func(g *Gen, c int) ([]string, []string, bool) {
 			o := tableOpts{alpha: append(append([]string{}, alphaHTML...), alphaPlain...), parts: 3, maxCols: 4, maxRows: 6, postAdd: c%3 == 0}
+			if c%4 == 2 {
+				// header and cell texts that are not valid UTF-8 (a key can only be the header text if the encoder keeps it)
+				o.alpha = append(append([]string{}, o.alpha...), "\xff", "\xfe", "caf\xe9", "\xe4\xb8", "\xc0\xaf")
+			}
 			if g.r.chance(3, 4) {
 				o.headerMode = 1
 			}
